@@ -126,6 +126,45 @@ WorldKind(p, w) ==
   IN [c |-> "comp", im |-> fun(side("import")), ex |-> fun(side("export"))]
 
 (***************************************************************************)
+(* Conformance of a component of world a to world b of the same package    *)
+(* (C11).  Inside one package equal names denote equal declarations, so    *)
+(* conformance is a matter of names: everything a imports -- explicitly or *)
+(* because an interface it imports or exports `use`s it -- is imported by  *)
+(* b, and a exports everything b exports.                                  *)
+(***************************************************************************)
+UsesOfIface(p, n) == {x.from : x \in {y \in Range(IfaceOf(p, n).items) : y.k = "use"}}
+RECURSIVE UseClosure(_, _)
+UseClosure(p, S) == LET T == S \cup UNION {UsesOfIface(p, n) : n \in S} IN IF T = S THEN S ELSE UseClosure(p, T)
+
+RECURSIVE FlatWorldItems(_, _)
+\* the items of a world with includes expanded: set of [k, form, name (after renames), iface]
+FlatWorldItems(p, w) ==
+  UNION {LET x == w.items[i] IN
+         IF x.k = "include"
+         THEN LET Ren(n) == IF \E j \in DOMAIN x.with : x.with[j].from = n
+                            THEN x.with[CHOOSE j \in DOMAIN x.with : x.with[j].from = n].to ELSE n
+              IN {[y EXCEPT !.name = Ren(y.name)] : y \in FlatWorldItems(p, WorldOf(p, x.world))}
+         ELSE {[k |-> x.k, form |-> x.form,
+                name |-> IF x.form = "iface" THEN D_Path[<<p.id, x.iface>>] ELSE x.name,
+                iface |-> IF x.form = "iface" THEN x.iface ELSE ""]}
+         : i \in DOMAIN w.items}
+
+AllImportNames(p, w) ==
+  LET its == FlatWorldItems(p, w)
+      imported == {x.iface : x \in {y \in its : y.k = "import" /\ y.form = "iface"}}
+      exported == {x.iface : x \in {y \in its : y.k = "export" /\ y.form = "iface"}}
+      \* what exported interfaces use and the world does not export must be imported
+      viaExports == UNION {UsesOfIface(p, n) : n \in exported} \ exported
+  IN {x.name : x \in {y \in its : y.k = "import"}}
+     \cup {D_Path[<<p.id, n>>] : n \in UseClosure(p, imported \cup viaExports)}
+ExportNames(p, w) == {x.name : x \in {y \in FlatWorldItems(p, w) : y.k = "export"}}
+ConformsTo(p, a, b) == AllImportNames(p, a) \subseteq AllImportNames(p, b) /\ ExportNames(p, b) \subseteq ExportNames(p, a)
+\* conformance is reflexive and transitive
+ConformanceLaws(p) ==
+  /\ \A a \in Range(p.worlds) : ConformsTo(p, a, a)
+  /\ \A a, b, c \in Range(p.worlds) : ConformsTo(p, a, b) /\ ConformsTo(p, b, c) => ConformsTo(p, a, c)
+
+(***************************************************************************)
 (* Laws of the elaboration (checked by TLC for every package).             *)
 (***************************************************************************)
 \* every type name an item mentions is declared in its scope, and `use` chains end in a declaration
@@ -162,5 +201,6 @@ IncludeCopies(p) ==
         outer == WorldItems(p, w)
     IN \A i \in DOMAIN inner : \E o \in DOMAIN outer : outer[o].dir = inner[i].dir /\ outer[o].kind = inner[i].kind
 
-DeclLaws == \A i \in DOMAIN D_Packages : WellScoped(D_Packages[i]) /\ UseTransparent(D_Packages[i]) /\ IncludeCopies(D_Packages[i])
+DeclLaws == \A i \in DOMAIN D_Packages : /\ WellScoped(D_Packages[i]) /\ UseTransparent(D_Packages[i])
+                                         /\ IncludeCopies(D_Packages[i]) /\ ConformanceLaws(D_Packages[i])
 ====
